@@ -861,17 +861,23 @@ def work_e2e(chunk):
                 cur = skel
                 n = 0
                 while failing2(cur, f) and n < 4:
-                    m, path = shrink2(cur, f)
-                    # the simplest front end of the same tree source that still shows it names the finding
-                    fr = f
-                    for alt in ('str', 'gen'):
-                        if FRONT_GROUP[alt] == FRONT_GROUP[f] and failing2(m, alt): fr = alt; break
-                    d2 = [d for ff, s2, d in check_e2e(m, (fr,)) if s2.startswith('WRONG')][0]
-                    prefix = 'e2e|' + FRONT_GROUP[fr]
-                    if regeneration_changes(_ref_text.get((m, fr), e_render(m))):
-                        prefix = 'src'          # explained by oracle 1's root cause (ast2src alone changes the tree Pony was given,
-                                                # as rendered by ast.unparse): same signature space as oracle 1
-                    sub.violation('%s|%s' % (prefix, e_sig(m)), dict(oracle='e2e', front=fr, skeleton=m, found_in=orig), d2)
+                    if regeneration_changes(e_render(cur)):
+                        # ast2src alone already changes this expression: name the finding by the *structurally* minimal
+                        # sub-shape that regeneration changes (the same signature space as oracle 1), not by value coincidences
+                        m, path = generic_shrink(cur, lambda t: regeneration_changes(e_render(t)), 'x', simplify_leaves=False)
+                        d2 = [d for ff, s2, d in check_e2e(cur, (f,)) if s2.startswith('WRONG')][0]
+                        sub.violation('src|' + e_sig(m), dict(oracle='e2e', front=f, skeleton=cur, found_in=orig), d2)
+                    else:
+                        m, path = shrink2(cur, f)
+                        # the simplest front end of the same tree source that still shows it names the finding
+                        fr = f
+                        for alt in ('str', 'gen'):
+                            if FRONT_GROUP[alt] == FRONT_GROUP[f] and failing2(m, alt): fr = alt; break
+                        d2 = [d for ff, s2, d in check_e2e(m, (fr,)) if s2.startswith('WRONG')][0]
+                        prefix = 'e2e|' + FRONT_GROUP[fr]
+                        if regeneration_changes(_ref_text.get((m, fr), e_render(m))):
+                            prefix = 'src'      # ast2src alone changes the tree Pony was given (as rendered by ast.unparse)
+                        sub.violation('%s|%s' % (prefix, e_sig(m)), dict(oracle='e2e', front=fr, skeleton=m, found_in=orig), d2)
                     n += 1
                     if not path: break
                     cur = replace_at(cur, path, 'x')
